@@ -190,7 +190,7 @@ def phase_b(m, amap, max_checks, skip=(), force=None):
     if m["file"].startswith("bin/"): order = ["C20"]
     for b in BROAD:
         if b not in order and not m["file"].startswith("bin/"): order.append(b)
-    order = [p for p in order if p not in skip][:max_checks]
+    order = list(force) if force else [p for p in order if p not in skip][:max_checks]
     d = tempfile.mkdtemp(prefix="mutB.", dir="/tmp"); res = dict(id=m["id"], tried=[], killed_by=None, infra=[])
     try:
         make_copy(m, d)
